@@ -189,7 +189,7 @@ pub fn run(cfg: &RunCfg) -> CheckReport {
     if rep.has_violation() {
         return rep;
     }
-    let big = super::large::lcs_big();
+    let big = super::large::lcs_big_for(cfg.tier, false);
     let ex = explore(cfg, big.len(), |shard, acc| {
         let inp = &big[shard];
         match check_large(Algorithm::Lcs, inp) {
